@@ -172,7 +172,7 @@ impl World for W6 {
     }
 
     fn rule(_prop: &str, _mode: &str) -> String {
-        "one run = one scenario (3-8 rules, mostly with marker paths and marker hosts; a published Arc<Router>; a change-set; cache limit in {None,1,2,5,1000}) executed under ONE seeded shuttle schedule (random 2/3, PCT depth 3 1/3) with 4 threads: two readers (match + capture + action build, compared with the sequentially pre-computed answers), one updater (update_existing_router then cache on the derived router, whose routes are shared with the published one; its answers compared with the pre-computed post-update answers), one cloner; afterwards the published router is re-probed. evaluations = reader observations compared. distinct_nontrivial = distinct scenarios in which at least one probe captures a marker".to_string()
+        "one run = one scenario (3-8 rules, mostly with marker paths and marker hosts; a published Arc<Router>; a change-set; cache limit in {None,1,2,5,1000}) executed under ONE seeded shuttle schedule (random 2/3, PCT depth 3 1/3) with 4-5 threads: two readers (match + capture + action build, compared with the sequentially pre-computed answers), one updater (update_existing_router then cache on the derived router, whose routes are shared with the published one; its answers compared with the pre-computed post-update answers), one cloner, and in half of the scenarios a second warmer compiling the published routes through &self; afterwards the published router is re-probed. evaluations = reader observations compared. distinct_nontrivial = distinct scenarios in which at least one probe captures a marker".to_string()
     }
 }
 
@@ -319,6 +319,21 @@ mod imp {
                     let mut c: Router<Rule> = (*published).clone();
                     c.cache(Some(1));
                     drop(c);
+                }
+                0u64
+            }));
+        }
+        if case.schedule_seed % 2 == 0 {
+            // a second warmer: compiles the capture regexes of the published router's routes through &self
+            // (Route::compile), racing with the updater's cache() on the same shared routes
+            let published = published.clone();
+            handles.push(shuttle::thread::spawn(move || {
+                let mut ids: Vec<&String> = published.routes().keys().collect();
+                ids.sort();
+                for id in ids {
+                    if let Some(r) = published.get_route_by_id(id) {
+                        let _ = r.compile();
+                    }
                 }
                 0u64
             }));
